@@ -107,7 +107,7 @@ RAISE = {
     'RT': lambda who: RuntimeError(f'boom {who}'),
     'ITO': lambda who: TimeoutError(f'inner timeout {who}'),
     'chain': lambda who: ValueError(f'boom {who}'),  # (sync handlers: built below)
-    'CE': lambda who: RuntimeError(f'boom {who}'),  # sync handlers cannot await a cancelled future: plain error  # sync handlers: plain TimeoutError
+    'CE': lambda who: RuntimeError(f'boom {who}'),  # (never reached: both handler kinds raise a real CancelledError, see below)
 }
 
 
@@ -560,6 +560,7 @@ def make_handler(w: World, hi: int, hspec: dict):
         w.running[me] = {'awaiting': None, 'enter': len(w.trace)}
         w.rec('enter', bus=bus, ev=ev.tag, h=hi, same=w.events.get(ev.tag) is ev)
         how = 'return'
+        own_cancel = False
         try:
             for oi, op in enumerate(prog):
                 k = op[0]
@@ -573,6 +574,13 @@ def make_handler(w: World, hi: int, hspec: dict):
                             ex = ValueError(f'boom (chained) {list(me)}')
                             w.raised[me] = ex
                             raise ex from inner
+                    if op[1] == 'CE':
+                        # a sync handler asks a cancelled future for its result: CancelledError comes out of the handler although
+                        # nobody cancelled anything that belongs to the bus
+                        fut = loop.create_future()
+                        fut.cancel()
+                        own_cancel = True
+                        fut.result()
                     ex = RAISE[op[1]](list(me))
                     w.raised[me] = ex
                     raise ex
@@ -585,7 +593,7 @@ def make_handler(w: World, hi: int, hspec: dict):
                 w.rec('mark', bus=bus, ev=ev.tag, h=hi, op=oi)
             return retval(me)
         except BaseException:
-            how = 'raise'
+            how = 'raise-cancelled' if own_cancel else 'raise'
             raise
         finally:
             w.running.pop(me, None)
